@@ -674,6 +674,28 @@ func TestC03Constants(t *testing.T) {
 	})
 }
 
+// Every address family number (a 16-bit field that renderers like to look up in tables), with
+// address parts that are not those of an IPv4 / IPv6 address: decoded, re-serialised, rendered.
+func TestC03EveryAddressFamily(t *testing.T) {
+	hdr := func(l uint32) []byte {
+		return refcodec.EncodeHeader(refcodec.Header{Version: 1, Flags: 0x80, Code: 257, App: 0, HopByHop: 1, EndToEnd: 2, Length: l})
+	}
+	limit := ev.Pick(1200, 65536)
+	structured.Enumerate(t, false, func(yield func(Case) bool) {
+		for f := 0; f < 65536; f++ {
+			if f >= limit && f < 65536-64 && f&(f-1) != 0 && (f+1)&f != 0 {
+				continue // quick tier: the first 1200, the powers of two and their predecessors, the last 64
+			}
+			for _, n := range []int{0, 3, 9} {
+				a := refcodec.EncodeAVP(&refcodec.Node{Code: 257, Flags: 0x40, Payload: refcodec.Address(uint16(f), make([]byte, n))})
+				if !yield(Case{Dict: gen.DictChoice{Name: "default"}, Wire: append(hdr(uint32(20+len(a))), a...), Tags: []string{"address-family-enumeration"}}) {
+					return
+				}
+			}
+		}
+	})
+}
+
 // ---------------------------------------------------------------------------
 // process-level cases: inputs that could kill the process instead of
 // panicking are decoded in a child (this test binary re-executing itself)
